@@ -112,7 +112,8 @@ def r2_precision(ctx, chk, rule="C04.2"):
     # the precision / threshold / state list of a solver are fixed at construction
     for fld in ("floor", "threshold", "state_list"):
         from .C01 import field_writers
-        ws = [(g, n) for g, n in field_writers(ctx, fld) if attr_path(n.targets[0] if isinstance(n, ast.Assign) else n.target) == "self." + fld
+        fw = [w for w in field_writers(ctx, fld) if len(w) == 2 and isinstance(w[1], (ast.Assign, ast.AugAssign, ast.AnnAssign))]
+        ws = [(g, n) for g, n in fw if attr_path(n.targets[0] if isinstance(n, ast.Assign) else n.target) == "self." + fld
               and g.cls is not None and g.cls.name == "Solver"]
         outside = [(g, n) for g, n in ws if g.name != "__init__"]
         if outside:
@@ -191,7 +192,9 @@ def role_table(ctx, chk, rule, q, best, worst):
     calls = [t for t in _sub(u) if t[0] == "mcall" and t[2] in (best, worst)]
     conds = [t for t in _sub(u) if t[0] == "cmp" and t[1] == "=="]
     swapped = simp(("ite", cond("Player 1"), entry(worst), simp(("ite", cond("Player 2"), entry(best), acc))))
-    if u == swapped:
+    if any(t[0] in ("res", "apply", "compr") or (t[0] == "acc" and t[1] != L.id) for t in _sub(u)):
+        chk.undecided(rule, f.where(L.node), "the dispatch goes through a nested loop / table / function value that is not resolved: %s" % show(u)[:160])
+    elif u == swapped:
         chk.violation(rule, f.where(L.node), "roles exchanged: Player 1 gets %s, Player 2 gets %s" % (worst, best),
                       expected=show(want1), found=show(u), construct="%s roles" % f.short)
     elif len(calls) == 2 and len(conds) == 2:
@@ -252,12 +255,14 @@ def r4_before_pruning(ctx, chk, rule="C04.4"):
             len(scope), sorted(g.short for g in ws)))
     # strategies returned by solve() are the ones computed there
     f = ctx.func("tad.py::StochasticGame.solve")
-    sx = SymX(ctx, f, "StochasticGame", inline_depth=0).run()
+    sx = SymX(ctx, f, "StochasticGame", inline_depth=2).run()      # private phase helpers of solve() are looked through
     ret = sx.ret
     if ret[0] == "tup" and len(ret[1]) >= 2:
         rs = ret[1][1]
         srcall = [t for t in _sub(rs) if t[0] == "mcall" and t[2] == "solve_reachability"]
-        if rs[0] == "idx" and rs[2] == C(0) and srcall:
+        if not srcall and any(t[0] == "mcall" and t[1] == ("v", "self") for t in _sub(rs)):
+            chk.undecided(rule, f.where(), "solve()[1] is `%s`: produced by a helper that was not resolved" % show(rs)[:120])
+        elif rs[0] == "idx" and rs[2] == C(0) and srcall:
             chk.ok(rule, f.where(), "solve() returns slot 0 of solve_reachability(...) as the reachability strategies, unmodified")
         else:
             chk.violation(rule, f.where(), "solve()[1] is `%s`, not the strategies returned by solve_reachability" % show(rs),
